@@ -3,7 +3,7 @@
    bit mask (see harness/comp/gainloss.py BITS). *)
 From Coq Require Import ZArith List Bool.
 From LV Require Import Common.Cases GainLoss.RoseTree GainLoss.Replay GainLoss.GetGls GainLoss.Parsimony
-  GainLoss.GetGLSr GainLoss.TopDown GainLoss.PhyBoGlue.
+  GainLoss.GetGLSr GainLoss.TopDown GainLoss.PhyBoGlue GainLoss.PhyBoRows.
 Import ListNotations.
 Local Open Scope Z_scope.
 
@@ -108,17 +108,18 @@ Definition td_case_code (c : td_case) : nat :=
            end)
   + bit 6 (match tc_out c with Some ev => negb (conflictb ev) | None => true end).
 
-(* PhyBo.get_GLS on a generated dataset: one item per (mode, cognate set) *)
+(* PhyBo.get_GLS on a generated dataset: one item per (mode, cognate set).  The rows of the wordlist are
+   part of the case; the pattern a stored scenario must reproduce is computed HERE from the rows by the
+   model of get_paps ([paps_of_rows]), not by the harness and not read from phy.paps. *)
 Record phybo_item := {
   pi_mode : glmode;
   pi_gpl : Z;
   pi_push : bool;
   pi_md : Z;
+  pi_cog : Z;                  (* the cognate id and the concept of the set ("<cogid>:<glid>") *)
+  pi_con : Z;
+  pi_paps0 : list Z;           (* phy.paps[cog] as first built by get_paps *)
   pi_paps : list Z;            (* phy.paps[cog] immediately before the call: input of the model *)
-  pi_obs : list Z;             (* presence / absence / missing of the cognate set derived by the harness from the
-                                  ROWS of the wordlist (not from phy.paps): what the stored scenario must
-                                  reproduce under this call's missing_data *)
-  pi_coded_ok : bool;          (* harness: phy.paps[cog] as first built equals pi_obs *)
   pi_exact : bool;             (* compare with the model (false for top-down: the result depends on
                                   the cognate sets processed before, see notes/design/C07.md) *)
   pi_out : story               (* phy.gls[glm][cog][0] *)
@@ -127,22 +128,26 @@ Record phybo_item := {
 Record phybo_case := {
   pc_tree : tree;
   pc_taxa : list Z;
+  pc_rows : list row;          (* (language, concept, cognate id) of every row of the wordlist file *)
+  pc_singletons : bool;        (* PhyBo(..., singletons=...) *)
+  pc_cogs : list (Z * Z);      (* phy.cogs as (cognate id, concept) *)
   pc_items : list phybo_item
 }.
 
-Definition phybo_item_code (t : tree) (taxa : list Z) (i : phybo_item) : nat :=
+Definition phybo_item_code (t : tree) (taxa : list Z) (rows : list row) (i : phybo_item) : nat :=
   let pat := combine taxa (pi_paps i) in
+  let coded := paps_of_rows rows taxa (pi_cog i) (pi_con i) in
+  let obs := combine taxa coded in
   bit 0 (negb (pi_exact i) ||
          result_eqb (phybo_per_cog pat t (pi_mode i) (pi_gpl i) (pi_push i) (pi_md i)) (pi_out i))
-  + bit 1 (replay_okb (pi_md i) (combine taxa (pi_obs i)) t (pi_out i))
+  + bit 1 (replay_okb (pi_md i) obs t (pi_out i))
   + bit 6 (negb (conflictb (pi_out i)))
-  + bit 7 (Nat.eqb (length taxa) (length (pi_paps i)) && Nat.eqb (length taxa) (length (pi_obs i)))
-  + bit 8 (pi_coded_ok i)
+  + bit 7 (Nat.eqb (length taxa) (length (pi_paps i)))
+  + bit 8 (list_eqb Z.eqb (pi_paps0 i) coded)
   (* C08 through PhyBo.get_GLS, weighted mode: the weight of the stored scenario against the verified
-     optimum for the pattern derived from the rows, under this call's missing_data *)
+     optimum for the pattern coded from the rows, under this call's missing_data *)
   + match pi_mode i with
     | GWeighted g l =>
-        let obs := combine taxa (pi_obs i) in
         let w := weight_ev g l (pi_out i) in
         let o := opt g l (pi_md i) obs t in
         bit 2 (o <=? w)
@@ -154,5 +159,16 @@ Definition phybo_item_code (t : tree) (taxa : list Z) (i : phybo_item) : nat :=
     | _ => 0%nat
     end.
 
+(* the cognate sets PhyBo analyses: every (cognate id, concept) of the rows, minus the singletons
+   when singletons=True *)
+Definition expected_cogs (c : phybo_case) : list (Z * Z) :=
+  filter (fun k => negb (pc_singletons c && is_singleton (paps_of_rows (pc_rows c) (pc_taxa c) (fst k) (snd k))))
+         (map (fun r => (r_cog r, r_con r)) (pc_rows c)).
+
+Definition same_set (a b : list (Z * Z)) : bool :=
+  let mem := fun k l => existsb (fun k' => (fst k =? fst k') && (snd k =? snd k')) l in
+  forallb (fun k => mem k b) a && forallb (fun k => mem k a) b.
+
 Definition phybo_case_code (c : phybo_case) : nat :=
-  fold_right (fun i acc => Nat.lor (phybo_item_code (pc_tree c) (pc_taxa c) i) acc) 0%nat (pc_items c).
+  Nat.lor (bit 9 (same_set (pc_cogs c) (expected_cogs c)))
+    (fold_right (fun i acc => Nat.lor (phybo_item_code (pc_tree c) (pc_taxa c) (pc_rows c) i) acc) 0%nat (pc_items c)).
